@@ -24,7 +24,7 @@ TLA_CP = "/opt/veriftools/tla/tla2tools.jar:/opt/veriftools/tla/CommunityModules
 BIG = 1000000
 FAM_MODULE = {"join": "JoinLike", "try_join": "JoinLike", "race": "Race", "race_ok": "Race", "merge": "Merge", "zip": "Zip",
               "chain": "Chain", "wait_until": "WaitUntil", "wait_until_stream": "WaitUntil",
-              "future_group": "Groups", "stream_group": "Groups", "co": "CoStream"}
+              "future_group": "Groups", "stream_group": "Groups", "co": "CoStream", "nest_join_join": "Nest"}
 SKIP_EV = {"new", "built", "end"}
 
 
@@ -54,7 +54,7 @@ def cfg_for(new):
                  limit=new.get("limit", 0), take=new.get("take", -1), nmaps=new.get("nmaps", 0))
         c.update(bud)
         return mod, c, None
-    rdy = fam in ("merge", "zip", "future_group", "stream_group")
+    rdy = fam in ("merge", "zip", "future_group", "stream_group", "nest_join_join")
     if fam == "race_ok":
         shape = "tup" if cont in ("tup", "ext") else cont
     elif fam in ("future_group", "stream_group"):
@@ -96,11 +96,22 @@ def convert(paths, per_module_max=None, stride=1, per_file_max=None):
     k = 0
     for path in paths:
         infile = 0
+        fstride = 1
+        if per_file_max is not None:
+            # spread the sample over the whole file (the runs of one file are grouped by family)
+            with open(path) as f:
+                total = sum(1 for line in f if line.startswith('{"e":"new"'))
+            fstride = max(1, total // max(1, per_file_max))
+        j = 0
         for evs in split_runs(path):
             k += 1
+            j += 1
             if stride > 1 and k % stride:
                 continue
-            if per_file_max is not None and infile >= per_file_max:
+            if fstride > 1 and j % fstride:
+                skipped["over the sample size"] = skipped.get("over the sample size", 0) + 1
+                continue
+            if per_file_max is not None and infile >= per_file_max + 2:
                 skipped["over the sample size"] = skipped.get("over the sample size", 0) + 1
                 continue
             infile += 1
